@@ -1282,6 +1282,8 @@ class Executor(MatchMixin, ExprMixin):
                 return [(p, z3.IntVal(len(v.items)))]
             if is_str(v) or is_seq(v):
                 return [(p, z3.Length(v))]
+            if isinstance(v, PyObj) and v.cls == "EPStack":
+                return [(p, v.fields["n"])]
             raise Unsupported("len of " + type(v).__name__)
         return self.bind(self.eval(e.args[0], st), k)
 
